@@ -177,6 +177,25 @@ CLAIMED = {
         "(quick, 2 of 8 slices) / n<=5,6 (thorough slices); univariate data as the property states.",
         "TLA+ model checked with TLC + spec-to-code replay + trace validation",
     ),
+    "C10": (
+        "7/C10",
+        "Lifecycle.tla",
+        "TLC explores every history up to the length bound of set_params / clone / fit / update / predict / "
+        "transform / transform_scores calls on two detector slots and fit / evaluate calls on their scorer "
+        "objects over four datasets (different n and p, overlapping and disjoint index), with the scorer "
+        "object shared (aliased) or private and fit tuning on none / one / both detectors, modelling each "
+        "method by its reads and writes of the hidden state (public scores attribute, scorer refitted in "
+        "place, fitted attributes) and checks that every returned value is the term of (hyper-parameters, "
+        "training data, argument), that update is a refit on the combined data and that only set_params / "
+        "clone change hyper-parameters; the emitted histories (exhaustive slices of length 3, simulated "
+        "length 6) are executed on six real detector pairs and every result is compared bitwise with a "
+        "fresh object built from the term alone; get_params() and all input frames are compared before and "
+        "after every call.",
+        "Histories longer than the bound are sampled by TLC simulation; a step that raises ends the replay "
+        "of that history; StatThresholdAnomaliser's scorer is excluded from the aliasing steps because it "
+        "fits a clone (documented); sktime's clone/reset are exercised, not specified.",
+        "TLA+ history model checked with TLC + spec-generated histories replayed against fresh objects",
+    ),
 }
 
 NOT_YET = {}
